@@ -32,6 +32,8 @@ pub fn sections(ctx: &Ctx) -> Vec<(&'static str, u64)> {
         ("corpus-trivia", w1),
         ("corpus-type", w1),
         ("stale", trivia * ctx.scale),
+        ("w2-trivia", crate::w2::TAILS.len() as u64 * 3 + if ctx.tier == Tier::Quick { 60 } else { 600 }),
+        ("separators", SEPARATOR_SHAPES.len() as u64 * 3),
     ]
 }
 
@@ -195,8 +197,12 @@ pub fn cases(ctx: &Ctx, section: &str, unit: u64) -> Vec<Case> {
                                     .collect();
                                 // an error gadget right after a declaration that is emitted once:
                                 // the diagnostic belongs to the last zz_err_ token of the gadget
-                                let gadget: Vec<String> = match pr.below(24) {
-                                    12.. => {
+                                let gadget: Vec<String> = match pr.below(26) {
+                                    12 => vec![
+                                        "static const int zz_g12 = zz_NS ::".into(),
+                                        format!("{indent}  zz_err_leaf ;"),
+                                    ],
+                                    13.. => {
                                         let n = pr.below(CALIBRATED.len() as u64) as usize;
                                         let mut v = vec![format!("{indent}static const int zz_cal_{n} = 0 ;")];
                                         v.extend(CALIBRATED[n].split('\n').map(|l| l.to_string()));
@@ -356,6 +362,48 @@ pub fn cases(ctx: &Ctx, section: &str, unit: u64) -> Vec<Case> {
                 ));
             }
         }
+        "separators" => {
+            let shape = SEPARATOR_SHAPES[(unit / 3) as usize % SEPARATOR_SHAPES.len()];
+            let target = [crate::exec::Target::Dx, crate::exec::Target::Vk, crate::exec::Target::Msl][(unit % 3) as usize];
+            let mut rng = ctx.rng().sub_n(section, unit);
+            let mut task = crate::exec::TaskSpec::compile(0, "test.rssl", target);
+            task.buffer_address = target == crate::exec::Target::Vk;
+            task.no_pipeline = !shape.contains("Pipeline ");
+            out.push(Case {
+                check: "C14".into(),
+                kind: "diag-separators".into(),
+                label: format!("separators#{}@{}", unit / 3, target.name()),
+                fss: vec![crate::plan::snippet_fs(shape)],
+                execs: vec![ExecSpec::single(key(&mut rng), STACK_MAIN, task)],
+                params: Json::obj(),
+            });
+        }
+        "w2-trivia" => {
+            // whole generated programs, and every program tail alone under every target
+            let tails = crate::w2::TAILS.len() as u64 * 3;
+            let mut rng = ctx.rng().sub_n(section, unit);
+            let (label, fs, task) = if unit < tails {
+                crate::w2::tail_scenario((unit / 3) as usize, (unit % 3) as usize)
+            } else {
+                crate::w2::scenario(&mut rng.sub("w2"), unit - tails)
+            };
+            let n = match (ctx.tier, unit < tails) {
+                (Tier::Quick, true) => 8,
+                (Tier::Quick, false) => 2,
+                (Tier::Thorough, true) => 24,
+                (Tier::Thorough, false) => 4,
+            };
+            for k in 0..n {
+                out.push(Case {
+                    check: "C14".into(),
+                    kind: "diag-trivia".into(),
+                    label: format!("{label}+trivia#{k}"),
+                    fss: vec![fs.clone()],
+                    execs: vec![ExecSpec::single(key(&mut rng), STACK_MAIN, task.clone())],
+                    params: Json::obj().with("variant_seed", Json::u(rng.next_u64() >> 12)),
+                });
+            }
+        }
         "corpus-trivia" => {
             let scs = w1_scenarios(&ctx.corpus, false);
             let sc = &scs[unit as usize];
@@ -484,6 +532,20 @@ fn calibrate(task: &crate::exec::TaskSpec, text: &str, rep: &mut Report) -> Opti
     }
     Some((d.line, d.col, d.rest.lines().next().unwrap_or("").to_string()))
 }
+
+/// Programs with `@@` wherever two tokens meet that are tokens however they are separated; every
+/// `@@` of a variant is replaced by the same separator
+const SEPARATOR_SHAPES: &[&str] = &[
+    "void str_cs() {}\nPipeline StrP { ComputeShader = str_cs; RenderTargetFormat0 = \"R8G8B8A8\"@@\"_UNORM\"; }\n",
+    "static const int sep_a =@@1@@+@@2@@;\nstatic const int sep_b = sep_a@@*@@( sep_a@@- 3 )@@;\n",
+    "int sep_f(@@int@@x@@,@@int y@@)@@{@@return@@x@@+@@y@@;@@}\nstatic const int sep_c = sep_f@@(@@1@@,@@2@@)@@;\n",
+    "struct SepS@@{@@int a@@;@@float2@@b@@;@@}@@;\nstatic SepS sep_s =@@{@@1@@,@@{@@2.0@@,@@3.0@@}@@}@@;\n",
+    "enum SepE@@{@@SE_A@@=@@1@@,@@SE_B@@}@@;\nstatic const SepE sep_e = SepE@@::@@SE_B@@;\n",
+    // (nothing is varied directly after < or >: the statement's first exception)
+    "template@@<typename T@@>\nT sep_id(@@T v@@)@@{ return v; }\nstatic const int sep_t = sep_id@@<int@@>(@@4@@)@@;\n",
+];
+
+const SEPARATORS: &[&str] = &[" ", "\t", "\n", " /* c */ ", "/**/", "\\\n", "  \n\n  ", " // c\n", "\r\n"];
 
 fn atom_name(t: &model::Tok) -> &str {
     match &t.atom {
@@ -1349,6 +1411,55 @@ pub fn judge(case: &Case, rep: &mut Report) {
                     ),
                 ));
             }
+        }
+        "diag-separators" => {
+            // every way of separating two tokens gives the same result
+            let Some(shape) = case.fss[task.fs].files.get(&task.entry) else {
+                return;
+            };
+            let mut first: Option<(String, TaskResult)> = None;
+            for sep in SEPARATORS {
+                let mut fss = case.fss.clone();
+                fss[task.fs].files.insert(task.entry.clone(), shape.replace("@@", sep));
+                let res = crate::exec::run_exec(ex, &fss);
+                let r = res.results.into_iter().next().unwrap().into_iter().next().unwrap();
+                rep.absorb_task(&r);
+                rep.count("separator_variants", 1);
+                if r.kind == OutcomeKind::Panic {
+                    rep.findings.push(finding("panic", &r.panic_site, format!("{}: {}", case.label, r.text)));
+                    return;
+                }
+                let message = |t: &str| -> String {
+                    t.lines()
+                        .nth(1)
+                        .and_then(|l| l.split_once("error: ").map(|x| x.1.to_string()))
+                        .unwrap_or_default()
+                };
+                match &first {
+                    None => first = Some((sep.to_string(), r)),
+                    Some((sep0, r0)) => {
+                        let same = if r0.kind == OutcomeKind::Ok {
+                            r.kind == OutcomeKind::Ok && r.text == r0.text
+                        } else {
+                            r.kind == r0.kind && message(&r.text) == message(&r0.text)
+                        };
+                        if !same {
+                            rep.findings.push(finding(
+                                "trivia",
+                                "separator-changes-result",
+                                format!(
+                                    "{}: tokens separated by {sep0:?} give {:?}, separated by {sep:?} they give {:?}",
+                                    case.label,
+                                    r0.text.lines().take(2).collect::<Vec<_>>().join(" | "),
+                                    r.text.lines().take(2).collect::<Vec<_>>().join(" | ")
+                                ),
+                            ));
+                            return;
+                        }
+                    }
+                }
+            }
+            rep.nontrivial.insert(digest);
         }
         "diag-crlf" => {
             let a = run_single(case, ex, rep);
